@@ -149,6 +149,7 @@ class Sim:
         self.results = ["-"] * APP_TASKS
         self.done_at = [None] * APP_TASKS
         self.tie = False
+        self.hb_fired_reset_pending = False
         self.ws = None
         self.tr = None
         self.proto = None
@@ -218,6 +219,9 @@ class Sim:
         self._prune()
         if loop._ready:
             h = loop._ready.popleft()
+            cb = getattr(h, "_callback", None)
+            if getattr(cb, "__name__", "") == "_send_heartbeat" and self.ws is not None and self.ws._need_heartbeat_reset:
+                self.hb_fired_reset_pending = True   # generator coverage only: the coincidence case was exercised
             h._run()
             return "cb"
         if loop._scheduled:
@@ -531,6 +535,7 @@ def run_scenario(cfg, labels, *, epilogue=False, max_ticks=400):
             sim.apply(("drop", 0)); labels.append(("drop", 0)); trace.append(sim.proj())
             complete = drain_ticks() and complete
         return {"labels": labels, "trace": trace, "a_end": a_end, "tie": sim.tie, "complete": complete,
+                "hb_fired_reset_pending": sim.hb_fired_reset_pending,
                 "loop_excs": [str(c.get("message")) for c in sim.excs]}
 
 
